@@ -1462,6 +1462,8 @@ class SObj:
             cls = getattr(importlib.import_module(mod), clsname, None)
             attr = inspect.getattr_static(cls, name, None) if cls is not None else None
             owner = next((k for k in (cls.__mro__ if cls is not None else ()) if name in vars(k)), None)
+            if attr is None and owner is not None:
+                return None  # a class-level default that is None (e.g. `_continue = None`)
             if attr is not None and owner is not None and (inspect.isfunction(attr) or isinstance(attr, property)):
                 u_ = getattr(ctx(), "unit", None)
                 if u_ is not None:
